@@ -202,6 +202,27 @@ func streamAead(c *ctx) {
 			c.nontriv(fmt.Sprintf("limit|%d|%d", alg, pl))
 		}
 	}
+	// the limit belongs to the 13-octet-nonce algorithms only: with a 7-octet nonce (L = 8) longer plaintexts are sealed
+	// and opened (the reference comparison at these lengths is in the thorough tier)
+	for _, alg := range []int{12, 13, 32, 33} {
+		for _, pl := range []int{65535, 65536, 70000} {
+			e, _ := realEncryptor(alg, make([]byte, symKeySize[alg]))
+			pt := genBytes(uint64(pl), pl)
+			var ct, back []byte
+			var err, derr error
+			p, pm := catch(func() {
+				ct, err = e.Encrypt(make([]byte, 7), pt, []byte("aad"))
+				if err == nil {
+					back, derr = e.Decrypt(make([]byte, 7), ct, []byte("aad"))
+				}
+			})
+			c.eval()
+			c.nontriv(fmt.Sprintf("no-limit|%d|%d", alg, pl))
+			if p || err != nil || derr != nil || !bytes.Equal(back, pt) || len(ct) != pl+rfcAeadTag[alg] {
+				c.fail(failure{Op: "aead", What: "a plaintext beyond 65535 octets under a 7-octet-nonce CCM algorithm is not sealed and opened", Input: fmt.Sprintf("alg=%d pt=%d", alg, pl), Observed: fmt.Sprintf("panic=%v %s err=%v/%v ct=%d", p, pm, err, derr, len(ct)), Expected: "ciphertext of plaintext + tag length, opened to the plaintext", Theorem: "C12_ccm_limit"})
+			}
+		}
+	}
 }
 
 func classLen(n int) int {
